@@ -10,6 +10,14 @@ COMMON_NOTE = ("Trusted base: SDK baseapp atomicity, bank keeper contract, sdk.C
                "machine integers as mathematical integers, the VC generator itself. ")
 
 claimed = {
+ "C02": dict(
+   text="Proof by gap contracts and a writer-closure scan. (a) For every pool, `pool.TotalShares - supply(share token)` is unchanged by every function that can write the amm pool table: join, exit, pool creation, the reserve updates of swaps and of perpetual transfers (on every exit, since swaps never touch shares or supplies), pool-parameter and external-liquidity updates; the type-level JoinPool / ExitPool / IncreaseLiquidity / DecreaseLiquidity move the share total by exactly the shares minted or burnt; each swap hop works on a pool whose share total is the stored one (the routing functions re-read the pool before each hop). (b) `supply - balance of the commitment custody account` is unchanged by join, exit and creation (minted shares are committed at once, exiting shares are uncommitted and then burnt), and CommitLiquidTokens / UncommitTokens move exactly the amount between the account and custody and adjust the account's committed amount and the per-denom sum by exactly that amount (C12's ledger clauses, which also serve this property). The closure scan follows callers across modules (leveragelp open/close chain) up to the message handlers and block functions.",
+   note=COMMON_NOTE + "Perpetual's SendToAmmPool/SendFromAmmPool callers are assumed to hand in the amm pool object they read in the same transaction (`callers-assumed`, listed in the evidence); GetNextPoolId and GetBestPoolWithDenoms postconditions are trusted (store iteration); transaction signers and position owners are not the commitment module account (T6); the close path of leveragelp claims (a) only (the reward payout is summarised as transfers without mint/burn). Collections bounded to 2 (routes, fee coins, pool assets) where the code iterates them. Eden/EdenB are not pool shares and are outside this property.",
+   ref="§A.4 C02"),
+ "C04": dict(
+   text="Proof of the settlement half on the real swap chain, plus structural obligations on the batch. Accepting a swap message changes nothing but the module's transient request queue (the dry run is on a discarded cache context). One hop (InternalSwapExactAmountIn/Out through UpdatePoolForSwap, fee collection and fee conversion included): for user sender and recipient the sender is debited exactly the input in the input denom, the recipient is credited at least the output (more only through the rebalance bonus), exact-in succeeds only with output >= the stated minimum and exact-out only with input <= the stated maximum, no other user's balance moves and no other denom of sender or recipient moves; the quoted coins are in the asked denoms. Routes: single-hop exact-in and exact-out and two-hop exact-in (sender != recipient) settle as requested end to end. Batch: queued requests are applied only by ExecuteSwapRequests, each on its own fresh cache context, and a cache context is written only on the `err == nil` side of its own application (SSA dominance scan), so a request that cannot be honoured changes no balance.",
+   note=COMMON_NOTE + "NOT decided: that every attempted request is removed from the queue and attempted at most once (the batch loop runs until the queue is empty; unbounded loops over store state need loop invariants, which were not built) - the queue lives in the transient store, which the SDK clears at the end of the block (T1). Routes bounded to 2 hops (labelled bounded); two-hop exact-out and sender == recipient multi-hop are not claimed. Recipients that are the pool's own accounts are outside the claim (isUser).",
+   ref="§A.4 C04"),
  "C06": dict(
    text="Proof (per-function, unbounded in amounts and number of debts): every stablestake function that writes Params.TotalValue, a Debt row or moves the module's deposit-denom cash (Bond, Unbond, Borrow, Repay, UpdateInterestStacked, GetInterest) preserves TotalValue - cash - Σdebts exactly on every committing path; Σ over all borrowers is a ghost aggregate maintained by the table-write semantics.",
    note=COMMON_NOTE + "Induction over histories is closed only over the listed functions (see evidence.functions_under_contract); callers in other modules reach the footprint only through them.",
